@@ -37,6 +37,9 @@ type WOpts struct {
 	NFD bool
 	// NoItemStyle: the cue carries no InlineStyle (justification / position then are the writer's choice).
 	NoItemStyle bool
+	// Partial (when the cue has an InlineStyle): 0 justification and position; 1 justification only; 2 position only
+	// (the attribute that is not given is the writer's choice).
+	Partial int `json:",omitempty"`
 	// ForceDSC0: write the same model with display standard "0" (branch around the teletext box finding).
 	ForceDSC0 bool
 	// Times, when set, are the cue instants in ns (2 per cue) relative to the programme start, verbatim.
@@ -155,9 +158,15 @@ func fromSubs(s *astisub.Subtitles) (map[string]string, int64, []gotCue) {
 	return meta, tcp, cues
 }
 
+// gsiMeta: the metadata a GSI block denotes in the library's model. The model names a language (five of them);
+// a code without a name there (or a blank field) denotes no language.
 func gsiMeta(g stl.GSI) map[string]string {
+	lc := g.LC
+	if _, ok := langName[lc]; !ok {
+		lc = ""
+	}
 	return map[string]string{
-		"fps": fmt.Sprint(g.FPS), "dsc": strings.TrimSpace(g.DSC), "lc": g.LC, "opt": g.OPT, "oet": g.OET, "tpt": g.TPT, "tet": g.TET,
+		"fps": fmt.Sprint(g.FPS), "dsc": strings.TrimSpace(g.DSC), "lc": lc, "opt": g.OPT, "oet": g.OET, "tpt": g.TPT, "tet": g.TET,
 		"tn": g.TN, "tcd": g.TCD, "slr": g.SLR, "cd": g.CD, "rd": g.RD, "rn": fmt.Sprint(g.RN), "mnc": fmt.Sprint(g.MNC),
 		"mnr": fmt.Sprint(g.MNR), "co": g.CO, "pub": g.PUB, "en": g.EN, "ecd": g.ECD,
 	}
@@ -240,7 +249,7 @@ func rewriteCheck(s *astisub.Subtitles, orig []stl.TC, fps int, tcp stl.TC, igno
 	keys := map[string]string{}
 	for k := 0; k < len(s.Items); k++ {
 		t := out[1024+128*k:]
-		w := []stl.TC{{int(t[5]), int(t[6]), int(t[7]), int(t[8])}, {int(t[9]), int(t[10]), int(t[11]), int(t[12])}}
+		w := []stl.TC{{H: int(t[5]), M: int(t[6]), S: int(t[7]), F: int(t[8])}, {H: int(t[9]), M: int(t[10]), S: int(t[11]), F: int(t[12])}}
 		for j := 0; j < 2; j++ {
 			o := orig[2*k+j]
 			if w[j] == o {
@@ -368,7 +377,11 @@ func CheckRead(cs Case) (fs []Finding, outcome uint64) {
 			add("stl.read.jc", "cue %d: justification code %d, reader returned %d (present=%v)", k, w.JC, c.JC, c.HasJC)
 		}
 		wt, gt := stl.RowsDenote(w.Rows, nfc), stl.RowsDenote(c.Rows, nfc)
-		if wt != gt {
+		if g.DSC == " " {
+			// undefined display standard: the property speaks of open subtitling and teletext only, so what the text
+			// field denotes is not pinned; everything else of the file is
+			gt = ""
+		} else if wt != gt {
 			key := "stl.read.text.open"
 			if isTeletext(g.DSC) {
 				key = "stl.read.text.teletext"
@@ -480,7 +493,13 @@ func ToSubs(cs Case) *astisub.Subtitles {
 			case 3:
 				j = astisub.JustificationRight
 			}
-			it.InlineStyle = &astisub.StyleAttributes{STLJustification: &j, STLPosition: &astisub.STLPosition{VerticalPosition: c.VP, MaxRows: g.MNR, Rows: len(c.Rows)}}
+			it.InlineStyle = &astisub.StyleAttributes{}
+			if cs.W.Partial != 2 {
+				it.InlineStyle.STLJustification = &j
+			}
+			if cs.W.Partial != 1 {
+				it.InlineStyle.STLPosition = &astisub.STLPosition{VerticalPosition: c.VP, MaxRows: g.MNR, Rows: len(c.Rows)}
+			}
 		}
 		for _, row := range c.Rows {
 			var l astisub.Line
@@ -670,6 +689,9 @@ func CheckWrite(cs Case) (fs []Finding, outcome uint64) {
 	if notes.TNB != len(wc) || notes.TNS != len(wc) {
 		add("stl.write.totals", "%d cues written; GSI says TNB=%d TNS=%d", len(wc), notes.TNB, notes.TNS)
 	}
+	if notes.TCF != rd.Blocks[0].In {
+		add("stl.write.tcf", "GSI timecode of the first in-cue is written %v, the first TTI block starts at %v", notes.TCF, rd.Blocks[0].In)
+	}
 	fpsOut := rd.GSI.FPS
 	// metadata
 	if cs.W.Meta == 0 {
@@ -677,6 +699,9 @@ func CheckWrite(cs Case) (fs []Finding, outcome uint64) {
 		want["dsc"] = wdsc(cs)
 		got := gsiMeta(rd.GSI)
 		for _, f := range metaFields {
+			if f == "lc" && langName[g.LC] == "" {
+				continue // a language the library's model cannot name: the written code is the writer's choice
+			}
 			if want[f] != got[f] {
 				add("stl.write.meta."+f, "metadata field %s = %q is written as %q", f, want[f], got[f])
 			}
@@ -752,10 +777,10 @@ func CheckWrite(cs Case) (fs []Finding, outcome uint64) {
 		// chosen itself when the metadata gives none): not compared then
 		vpValid := !isTeletext(dscOut) || (w.VP >= 1 && w.VP <= 23)
 		if !cs.W.NoItemStyle {
-			if vpValid && r.VP != w.VP {
+			if vpValid && cs.W.Partial != 1 && r.VP != w.VP {
 				add("stl.write.vp", "cue %d: vertical position %d under display standard %q is written as %d", k, w.VP, dscOut, r.VP)
 			}
-			if r.JC != w.JC {
+			if cs.W.Partial != 2 && r.JC != w.JC {
 				add("stl.write.jc", "cue %d: justification %d is written as %d", k, w.JC, r.JC)
 			}
 		}
@@ -831,21 +856,35 @@ func CheckWrite(cs Case) (fs []Finding, outcome uint64) {
 type profile struct {
 	fps    []int
 	dsc    []string
-	tcp    []int // 0 none; 1 10:00:00:00; 2 one frame; 3 09:59:59:last
+	tcp    []int // 0 none; 1 10:00:00:00; 2 one frame; 3 09:59:59:last; 4 23:59:59:last; 5 00:01:00:00; 6 00:00:01:00; 7 01:00:00:00
 	ignore bool
-	gsi    bool // explore GSI field values
+	gsi    int // bit set of GSI field groups whose values are explored (gsiAll in the ball)
 	ncues  []int
 	user   bool // explore user-data blocks
 	ins    []int
 	outs   []int
-	layout bool // VP, JC, CS, SGN, SN base
+	layout bool // VP, JC
+	hdr    bool // SN base, CS, SGN, EBN, comment flag (the other TTI header bytes)
 	nrows  []int
 	nruns  []int
 	styles []stl.Style
 	texts  []string
-	render int // 0 none, 1 core subset, 2 all
-	wopts  int // 0 none, 1 all
+	render int // 0 none, 1 core subset, 2 all, 3 row-layout product (open), 4 row-layout product (teletext)
+	wopts  int // 0 none, 1 all, 2 write-option product, 3 item-style product
 }
+
+// GSI field groups (fields that are neighbours in the block are in one group, so that one full product ranges over them)
+const (
+	gsiID     = 1 << iota // CPN, (DFC, DSC), LC: bytes 0..15
+	gsiTitles             // OPT, OET, TPT: bytes 16..111
+	gsiNames              // TPT, TET, TN: bytes 80..175
+	gsiRefs               // TN, TCD, SLR: bytes 144..223
+	gsiDates              // SLR, CD, RD, RN: bytes 208..237
+	gsiNums               // TNG, MNC, MNR, TCS: bytes 248..255
+	gsiTC                 // (TCP, TCF,) TND, DSN, CO: bytes 256..276
+	gsiTail               // PUB, EN, ECD, spare bytes, UDA: bytes 277..1023
+	gsiAll    = 1<<iota - 1
+)
 
 var allStyles = []stl.Style{{}, {I: true}, {U: true}, {B: true}, {I: true, U: true}, {I: true, B: true}, {U: true, B: true}, {I: true, U: true, B: true}}
 
@@ -856,19 +895,57 @@ var allTexts = []string{"x", "a b", "7", "$", "\u00a4", "\u2126", "e\u0301", "A\
 var typical = map[string]string{"opt": "Title test", "oet": "Episode one", "tpt": "Titre traduit", "tet": "Episode un", "tn": "T. Translator",
 	"tcd": "t@example.org", "pub": "Copyright test", "en": "E. Editor", "ecd": "+33 1 23 45 67 89"}
 
-func fieldChoice(c *explore.C, p profile, name string, width int) string {
+// value tables of the GSI fields: the first entry is the baseline, the first entries are the ones of earlier rounds
+var (
+	cpnVals = []string{"850", "437", "860", "863", "865"} // every code page the format defines
+	// the five codes the library names, then codes it has no name for (hex letter, zero, highest code) and a blank field
+	lcVals  = []string{"0F", "09", "1E", "69", "75", "0A", "00", "7F", ""}
+	slrVals = []string{"12345678", "", "SLR:ABCDEFGHIJKL", "1", "REF  15-chars/a"}
+	coVals  = []string{"FRA", "NOR", "", "CHN", "US"}
+	// dates: both sides of the century digits, 29 February, both sides of 1968/69/70 (two-digit-year pivots)
+	cdVals  = []string{"170702", "991231", "000101", "000229", "691231", "700101", "681231", "381231"}
+	rdVals  = []string{"010101", "200110", "690101", "991231", "000101", "680101", "700101", "240229"}
+	rnVals  = []int{0, 1, 99, 9, 10}
+	mncVals = []int{40, 38, 99, 0, 1, 9, 10}
+	mnrVals = []int{23, 11, 99, 0, 1, 9, 10, 24}
+	tngVals = []int{1, 2, 9, 10, 255}
+	// a user-defined area that is full and holds every byte value (free-form content)
+	udaFull = func() string {
+		b := make([]byte, 576)
+		for i := range b {
+			b[i] = byte(255 - i%256)
+		}
+		return string(b)
+	}()
+	spareFull = strings.Repeat("S", 75)
+)
+
+// values of a free-text GSI field: typical, empty, exactly full width, one character, one short of full, inner
+// double blank with punctuation and lower case
+func fieldChoice(c *explore.C, on bool, name string, width int) string {
 	typ := typical[name]
-	if !p.gsi {
+	if !on {
 		return typ
 	}
 	full := strings.ToUpper(name) + ":" + strings.Repeat("ABCDEFGHIJKLMNOPQRSTUVWXYZ012345", 2)
-	return explore.Pick(c, name, typ, "", full[:width])
+	return explore.Pick(c, name, typ, "", full[:width], name[:1], full[:width-1], "Mr  "+name+": a/b (c) 100%")
 }
 
 func tcFromFrames(n int64, fps int) stl.TC {
 	f := int64(fps)
 	return stl.TC{H: int(n / (3600 * f)), M: int(n / (60 * f) % 60), S: int(n / f % 60), F: int(n % f)}
 }
+
+// spacing control codes of a teletext row that are neither box codes nor alpha colours (those are Render.Colour)
+var ctlCodes = func() []int {
+	o := []int{0}
+	for c := 0x08; c <= 0x1F; c++ {
+		if c != 0x0A && c != 0x0B {
+			o = append(o, c)
+		}
+	}
+	return o
+}()
 
 func gen(c *explore.C, p profile) Case {
 	var cs Case
@@ -883,35 +960,65 @@ func gen(c *explore.C, p profile) Case {
 		g.TCP = stl.TC{F: 1}
 	case 3:
 		g.TCP = stl.TC{H: 9, M: 59, S: 59, F: last}
+	case 4:
+		g.TCP = stl.TC{H: 23, M: 59, S: 59, F: last}
+	case 5:
+		g.TCP = stl.TC{M: 1}
+	case 6:
+		g.TCP = stl.TC{S: 1}
+	case 7:
+		g.TCP = stl.TC{H: 1}
 	}
 	if p.ignore {
 		cs.Ignore = c.Bool("ignore")
 	}
+	on := func(group int) bool { return p.gsi&group != 0 }
 	g.CPN, g.LC, g.SLR, g.CO, g.CD, g.RD, g.RN, g.MNC, g.MNR, g.TCS, g.TND, g.DSN = "850", "0F", "12345678", "FRA", "170702", "010101", 0, 40, 23, "1", 1, 1
-	if p.gsi {
-		g.CPN = explore.Pick(c, "cpn", "850", "437")
-		g.LC = explore.Pick(c, "lc", "0F", "09", "1E", "69", "75")
-		g.SLR = explore.Pick(c, "slr", "12345678", "", "SLR:ABCDEFGHIJKL")
-		g.CO = explore.Pick(c, "co", "FRA", "NOR", "")
-		g.CD = explore.Pick(c, "cd", "170702", "991231", "000101")
-		g.RD = explore.Pick(c, "rd", "010101", "200110", "690101")
-		g.RN = explore.Pick(c, "rn", 0, 1, 99)
-		g.MNC = explore.Pick(c, "mnc", 40, 38, 99)
-		g.MNR = explore.Pick(c, "mnr", 23, 11, 99)
+	if on(gsiID) {
+		g.CPN = explore.Pick(c, "cpn", cpnVals...)
+		g.LC = explore.Pick(c, "lc", lcVals...)
+	}
+	if on(gsiRefs | gsiDates) {
+		g.SLR = explore.Pick(c, "slr", slrVals...)
+	}
+	if on(gsiTC) {
+		g.CO = explore.Pick(c, "co", coVals...)
+	}
+	if on(gsiDates) {
+		g.CD = explore.Pick(c, "cd", cdVals...)
+		g.RD = explore.Pick(c, "rd", rdVals...)
+		g.RN = explore.Pick(c, "rn", rnVals...)
+	}
+	if on(gsiNums) {
+		g.MNC = explore.Pick(c, "mnc", mncVals...)
+		g.MNR = explore.Pick(c, "mnr", mnrVals...)
 		g.TCS = explore.Pick(c, "tcs", "1", "0")
+	}
+	if on(gsiTC) {
 		g.TND = explore.Pick(c, "tnd", 1, 9)
 		g.DSN = explore.Pick(c, "dsn", 1, 9)
-		g.UDA = explore.Pick(c, "uda", "", "user defined area")
 	}
-	g.OPT = fieldChoice(c, p, "opt", 32)
-	g.OET = fieldChoice(c, p, "oet", 32)
-	g.TPT = fieldChoice(c, p, "tpt", 32)
-	g.TET = fieldChoice(c, p, "tet", 32)
-	g.TN = fieldChoice(c, p, "tn", 32)
-	g.TCD = fieldChoice(c, p, "tcd", 32)
-	g.PUB = fieldChoice(c, p, "pub", 32)
-	g.EN = fieldChoice(c, p, "en", 32)
-	g.ECD = fieldChoice(c, p, "ecd", 32)
+	if on(gsiTail) {
+		g.UDA = explore.Pick(c, "uda", "", "user defined area", udaFull)
+	}
+	g.OPT = fieldChoice(c, on(gsiTitles), "opt", 32)
+	g.OET = fieldChoice(c, on(gsiTitles), "oet", 32)
+	g.TPT = fieldChoice(c, on(gsiTitles|gsiNames), "tpt", 32)
+	g.TET = fieldChoice(c, on(gsiNames), "tet", 32)
+	g.TN = fieldChoice(c, on(gsiNames|gsiRefs), "tn", 32)
+	g.TCD = fieldChoice(c, on(gsiRefs), "tcd", 32)
+	g.PUB = fieldChoice(c, on(gsiTail), "pub", 32)
+	g.EN = fieldChoice(c, on(gsiTail), "en", 32)
+	g.ECD = fieldChoice(c, on(gsiTail), "ecd", 32)
+	if on(gsiNums) {
+		g.TNG = explore.Pick(c, "tng", tngVals...)
+		if g.TNG == 1 {
+			g.TNG = 0 // the reference encoder's default
+		}
+	}
+	if on(gsiTail) {
+		g.Spare = explore.Pick(c, "spare", "", spareFull)
+	}
 
 	fps := g.FPS
 	max := stl.TC{H: 23, M: 59, S: 59, F: last}.Frames(fps)
@@ -919,7 +1026,7 @@ func gen(c *explore.C, p profile) Case {
 	offs := []stl.TC{{S: 1}, {}, {F: 1}, {F: last}, {S: 59, F: last}, {M: 59, S: 59, F: last}, {H: 1}, {H: 13, M: 59, S: 58, F: last}, {S: 1, F: 2}, {S: 1, F: fps / 2}}
 	n := explore.Pick(c, "ncues", p.ncues...)
 	snBase := 1
-	if p.layout {
+	if p.hdr {
 		snBase = explore.Pick(c, "snbase", 1, 0)
 	}
 	for k := 0; k < n; k++ {
@@ -928,6 +1035,9 @@ func gen(c *explore.C, p profile) Case {
 		}
 		b := stl.Block{SN: snBase + k, VP: 20, JC: 2}
 		in := base + offs[explore.Pick(c, "in", p.ins...)].Frames(fps)
+		if in > max {
+			in = max
+		}
 		out := in
 		switch explore.Pick(c, "out", p.outs...) {
 		case 0:
@@ -949,8 +1059,16 @@ func gen(c *explore.C, p profile) Case {
 				b.VP = explore.Pick(c, "vp", 20, 0, 1, 12, 23, 99)
 			}
 			b.JC = explore.Pick(c, "jc", 2, 0, 1, 3)
+		}
+		if p.hdr {
 			b.CS = explore.Pick(c, "cs", 0, 1, 2, 3)
-			b.SGN = explore.Pick(c, "sgn", 0, 1)
+			b.SGN = explore.Pick(c, "sgn", 0, 1, 255)
+			// every non-user-data block is one cue: a block announcing an extension block (EBN 00h..EFh) and a
+			// block flagged as comment are cues like any other
+			if e := explore.Pick(c, "ebn", 0xFF, 0x00, 0x01, 0xEF); e != 0xFF {
+				b.HasEBN, b.EBN = true, e
+			}
+			b.CF = explore.Pick(c, "cf", 0, 1)
 		}
 		nr := explore.Pick(c, "nrows", p.nrows...)
 		for r := 0; r < nr; r++ {
@@ -978,7 +1096,7 @@ func gen(c *explore.C, p profile) Case {
 		cs.Render.RowFill = explore.Pick(c, "rowfill", 0, 2)
 	case 2:
 		if isTeletext(g.DSC) {
-			cs.Render.Box = c.Choose("box", 6)
+			cs.Render.Box = c.Choose("box", 7)
 			cs.Render.Colour = c.Choose("colour", 9)
 		}
 		cs.Render.StyleForm = c.Choose("styleform", 3)
@@ -986,13 +1104,56 @@ func gen(c *explore.C, p profile) Case {
 		cs.Render.TrailingBreak = c.Bool("trailingbreak")
 		cs.Render.Indent = explore.Pick(c, "indent", 0, 1, 3)
 		cs.Render.RowFill = explore.Pick(c, "rowfill", 0, 1, 3)
+		cs.Render.LeadingBreak = c.Bool("leadingbreak")
+		cs.Render.EmptyRow = c.Bool("emptyrow")
+		cs.Render.Trail = explore.Pick(c, "trail", 0, 1, 2)
+		cs.Render.NoFinalOff = c.Bool("nofinaloff")
+		if isTeletext(g.DSC) {
+			cs.Render.Ctl = explore.Pick(c, "ctl", ctlCodes...)
+			cs.Render.CtlPos = c.Choose("ctlpos", 4)
+		}
+	case 3, 4:
+		// row layout: where rows begin and end inside the text field
+		if isTeletext(g.DSC) {
+			cs.Render.Box = explore.Pick(c, "box", 0, 1, 6)
+		}
+		cs.Render.LeadingBreak = c.Bool("leadingbreak")
+		cs.Render.EmptyRow = c.Bool("emptyrow")
+		cs.Render.TrailingBreak = c.Bool("trailingbreak")
+		cs.Render.Trail = explore.Pick(c, "trail", 0, 1)
+		cs.Render.Indent = explore.Pick(c, "indent", 0, 1)
+		cs.Render.NoFinalOff = c.Bool("nofinaloff")
+		cs.Render.RowFill = explore.Pick(c, "rowfill", 0, 1)
 	}
-	if p.wopts == 1 {
+	switch p.wopts {
+	case 1, 2:
 		cs.W.Meta = c.Choose("w.meta", 5)
 		cs.W.TimeForm = c.Choose("w.timeform", 3)
 		cs.W.Plain = c.Choose("w.plain", 3)
 		cs.W.NFD = c.Bool("w.nfd")
-		cs.W.NoItemStyle = c.Bool("w.noitemstyle")
+		if p.wopts == 2 {
+			cs.W.NoItemStyle = c.Bool("w.noitemstyle")
+		} else {
+			// 0 justification + position, 1 no item style, 2 justification only, 3 position only
+			switch c.Choose("w.noitemstyle", 4) {
+			case 1:
+				cs.W.NoItemStyle = true
+			case 2:
+				cs.W.Partial = 1
+			case 3:
+				cs.W.Partial = 2
+			}
+		}
+	case 3:
+		cs.W.Meta = c.Choose("w.meta", 2)
+		switch c.Choose("w.noitemstyle", 4) {
+		case 1:
+			cs.W.NoItemStyle = true
+		case 2:
+			cs.W.Partial = 1
+		case 3:
+			cs.W.Partial = 2
+		}
 	}
 	return cs
 }
@@ -1010,15 +1171,66 @@ func blocksProfile() profile {
 
 func writeProfile() profile {
 	return profile{fps: []int{25, 30}, dsc: []string{"1", "0", "2"}, tcp: []int{0, 1}, ncues: []int{1}, ins: []int{0, 8}, outs: []int{0},
-		nrows: []int{1}, nruns: []int{1, 2}, styles: []stl.Style{{}, {I: true}}, texts: []string{"x"}, wopts: 1}
+		nrows: []int{1}, nruns: []int{1, 2}, styles: []stl.Style{{}, {I: true}}, texts: []string{"x"}, wopts: 2}
 }
 
 func fullProfile(thorough bool) profile {
-	p := profile{fps: []int{25, 30}, dsc: []string{"1", "0", "2"}, tcp: []int{0, 1, 2, 3}, ignore: true, gsi: true, ncues: []int{1, 0, 2, 3}, user: true,
-		ins: []int{0, 1, 2, 3, 4, 5, 6, 7, 8, 9}, outs: []int{0, 1, 2, 3}, layout: true, nrows: []int{1, 2, 3}, nruns: []int{1, 2, 3},
+	p := profile{fps: []int{25, 30}, dsc: []string{"1", "0", "2"}, tcp: []int{0, 1, 2, 3, 4, 5, 6, 7}, ignore: true, gsi: gsiAll, ncues: []int{1, 0, 2, 3}, user: true,
+		ins: []int{0, 1, 2, 3, 4, 5, 6, 7, 8, 9}, outs: []int{0, 1, 2, 3}, layout: true, hdr: true, nrows: []int{1, 2, 3}, nruns: []int{1, 2, 3},
 		styles: allStyles, texts: allTexts, render: 2, wopts: 1}
 	_ = thorough
 	return p
+}
+
+// one plain cue; the small full products below vary one group of neighbouring fields each
+func plainProfile() profile {
+	return profile{fps: []int{25}, dsc: []string{"1"}, tcp: []int{0}, ncues: []int{1}, ins: []int{0}, outs: []int{0},
+		nrows: []int{1}, nruns: []int{1}, styles: []stl.Style{{}}, texts: []string{"x"}}
+}
+
+type namedProfile struct {
+	sub   string
+	p     profile
+	write bool
+}
+
+// valueProducts: full products over the value tables of fields that lie next to each other in the GSI / TTI block
+// (a slip in an offset, a width, a radix or a trim shows on a field or on its neighbour).
+func valueProducts() []namedProfile {
+	var o []namedProfile
+	add := func(sub string, write bool, f func(p *profile)) {
+		p := plainProfile()
+		f(&p)
+		o = append(o, namedProfile{sub, p, write})
+	}
+	// CPN x DFC x DSC (incl. the undefined blank) x LC
+	add("gsi-id", true, func(p *profile) { p.fps, p.dsc, p.gsi = []int{25, 30}, []string{"1", "0", "2", " "}, gsiID })
+	for _, grp := range []struct {
+		sub string
+		g   int
+	}{{"gsi-titles", gsiTitles}, {"gsi-names", gsiNames}, {"gsi-refs", gsiRefs}, {"gsi-dates", gsiDates}} {
+		grp := grp
+		add(grp.sub, true, func(p *profile) { p.gsi = grp.g })
+	}
+	// TNB/TNS (0, 1, 2 cues) x TNG x MNC x MNR x TCS x display standard
+	add("gsi-nums", true, func(p *profile) { p.dsc, p.ncues, p.gsi = []string{"1", "0"}, []int{1, 0, 2}, gsiNums })
+	// every TCP x ignore x frame rate x TCI at/after the programme start (TCF = first TCI) x TND x DSN x CO
+	add("gsi-tc", true, func(p *profile) {
+		p.fps, p.dsc, p.tcp, p.ignore, p.ins, p.gsi = []int{25, 30}, []string{"0", "1"}, []int{0, 1, 2, 3, 4, 5, 6, 7}, true, []int{0, 1, 3}, gsiTC
+	})
+	add("gsi-tail", true, func(p *profile) { p.gsi = gsiTail })
+	// TTI header bytes: SGN x SN base x EBN x CS x CF x user-data block before/after
+	add("tti-hdr", true, func(p *profile) { p.dsc, p.hdr, p.user = []string{"1", "0"}, true, true })
+	// where rows begin and end in the text field (read direction only: the writer has no such freedom)
+	add("rows-open", false, func(p *profile) {
+		p.dsc, p.render, p.nrows, p.nruns, p.styles = []string{"0"}, 3, []int{1, 2, 3}, []int{1, 2}, []stl.Style{{}, {I: true}}
+	})
+	add("rows-teletext", false, func(p *profile) {
+		p.dsc, p.render, p.nrows, p.nruns, p.styles = []string{"1"}, 4, []int{1, 2}, []int{1, 2}, []stl.Style{{}, {I: true}}
+	})
+	// cue attributes given / not given to the writer x position x justification x display standard
+	add("w-item", true, func(p *profile) { p.dsc, p.layout, p.wopts = []string{"1", "0", "2"}, true, 3 })
+	return o
 }
 
 // ---------------------------------------------------------------------------------------------
@@ -1063,6 +1275,7 @@ func (r *runner) exec(sub string, cs Case, dev int, read, write bool, sample fun
 		if dev != 0 {
 			nt = core.Hash64("r", id)
 		}
+		c.Extra["evals."+sub+".read"]++
 		c.Record(sub+".read", out, nt, sample)
 		for _, f := range fs {
 			c.Violate("read", f.Key, f.Msg, cs, dev*1000+len(id))
@@ -1072,6 +1285,10 @@ func (r *runner) exec(sub string, cs Case, dev int, read, write bool, sample fun
 		variants := []bool{false}
 		if cs.Doc.GSI.DSC != "0" || cs.W.Meta != 0 {
 			variants = append(variants, true)
+		}
+		if cs.Doc.GSI.DSC == " " {
+			// a model asking for the undefined display standard is outside the property: only as display standard "0"
+			variants = []bool{true}
 		}
 		for _, force := range variants {
 			w := cs
@@ -1085,6 +1302,7 @@ func (r *runner) exec(sub string, cs Case, dev int, read, write bool, sample fun
 				continue
 			}
 			fs, out := CheckWrite(w)
+			c.Extra["evals."+sub+".write"]++
 			c.Record(sub+".write", out, core.Hash64("w", id, fmt.Sprint(force)), nil)
 			for _, f := range fs {
 				c.Violate("write", f.Key, f.Msg, w, dev*1000+len(id))
@@ -1156,6 +1374,7 @@ func run(c *core.Ctx) {
 
 	// (1) E1 explorations
 	var cs Case
+	readOnly := false
 	visit := func(sub string) func(x *explore.C) bool {
 		return func(x *explore.C) bool {
 			if !c.Mine() {
@@ -1163,7 +1382,7 @@ func run(c *core.Ctx) {
 			}
 			cs := cs
 			dev := explore.Deviations(x.Trace)
-			r.exec(sub, cs, dev, true, true, func() interface{} {
+			r.exec(sub, cs, dev, true, !readOnly, func() interface{} {
 				b, _ := stl.Encode(cs.Doc, cs.Render)
 				return map[string]interface{}{"choices": x.Trace, "file": describe(b)}
 			})
@@ -1174,6 +1393,17 @@ func run(c *core.Ctx) {
 	explore.Explore(-1, func(x *explore.C) { cs = gen(x, cp) }, visit("core"))
 	explore.Explore(-1, func(x *explore.C) { cs = gen(x, bp2) }, visit("blocks"))
 	explore.Explore(-1, func(x *explore.C) { cs = gen(x, wp) }, visit("wprod"))
+	for _, np := range valueProducts() {
+		np := np
+		v := visit(np.sub)
+		explore.Explore(-1, func(x *explore.C) { cs = gen(x, np.p) }, func(x *explore.C) bool {
+			if !np.write {
+				readOnly = true
+				defer func() { readOnly = false }()
+			}
+			return v(x)
+		})
+	}
 	bound := 2
 	if thorough {
 		bound = 3
@@ -1273,6 +1503,35 @@ func run(c *core.Ctx) {
 					cs.Doc.Blocks[0].Out = stl.TC{H: 10, S: 2, F: f}
 					r.exec("tcp-frames", cs, 2, true, !ignore, nil)
 					tick()
+				}
+			}
+		}
+	}
+
+	// (2b) digit boundaries of every timecode component, in the textual GSI timecodes (TCP, and TCF = first TCI) and
+	// in the TTI block: TCP = TCI = h:m:s:f over {0,9,10,max}^4, both ignore settings, both directions
+	for _, fps := range []int{25, 30} {
+		maxF := stl.TC{H: 23, M: 59, S: 59, F: fps - 1}.Frames(fps)
+		for _, h := range []int{0, 9, 10, 23} {
+			for _, m := range []int{0, 9, 10, 59} {
+				for _, sec := range []int{0, 9, 10, 59} {
+					for _, f := range []int{0, 9, 10, fps - 1} {
+						for _, ignore := range []bool{false, true} {
+							if stop || !c.Mine() {
+								continue
+							}
+							cs := baseCase(fps, "0")
+							tc := stl.TC{H: h, M: m, S: sec, F: f}
+							out := tc.Frames(fps) + int64(fps)
+							if out > maxF {
+								out = maxF
+							}
+							cs.Doc.GSI.TCP, cs.Ignore = tc, ignore
+							cs.Doc.Blocks[0].In, cs.Doc.Blocks[0].Out = tc, tcFromFrames(out, fps)
+							r.exec("tc-digits", cs, 2, true, !ignore, nil)
+							tick()
+						}
+					}
 				}
 			}
 		}
@@ -1419,13 +1678,123 @@ func run(c *core.Ctx) {
 		}
 		for vp := lo; vp <= hi; vp++ {
 			for jc := 0; jc <= 3 && !stop; jc++ {
-				if !c.Mine() {
-					continue
+				for cf := 0; cf <= 1; cf++ { // the comment flag is the byte after the justification code
+					if !c.Mine() {
+						continue
+					}
+					cs := baseCase(25, dsc)
+					cs.Doc.Blocks[0].VP, cs.Doc.Blocks[0].JC, cs.Doc.Blocks[0].CF = vp, jc, cf
+					r.exec("vp-jc", cs, 2+cf, true, true, nil)
+					tick()
 				}
-				cs := baseCase(25, dsc)
-				cs.Doc.Blocks[0].VP, cs.Doc.Blocks[0].JC = vp, jc
-				r.exec("vp-jc", cs, 2, true, true, nil)
-				tick()
+			}
+		}
+	}
+
+	// (4c) text fields that are exactly full: rows of 96..112 text bytes in total (what does not fit is skipped and
+	// counted), so that the field ends with 2, 1, 0 filler bytes; last byte a letter, an accented letter (diacritic
+	// code at byte 111), an attribute-off code, an end-box code, a line break
+	maxField := 0
+	for _, dsc := range []string{"0", "1", "2"} {
+		for _, fps := range []int{25, 30} {
+			for n := 96; n <= 112; n++ {
+				for shape := 0; shape < 5 && !stop; shape++ {
+					for _, tb := range []bool{false, true} {
+						if !c.Mine() {
+							continue
+						}
+						cs := baseCase(fps, dsc)
+						line := strings.Repeat("abcdefghijklmnopqrstuvwxyz ABCDEFGHIJKLMNOPQRSTUVWXYZ 0123456789 ", 2)
+						var rows []stl.Row
+						switch shape {
+						case 0: // one row
+							rows = []stl.Row{{{Text: line[:n-1] + "z"}}}
+						case 1: // one row ending with an accented letter (n bytes: n-2 letters, diacritic, letter)
+							rows = []stl.Row{{{Text: line[:n-3] + "ze\u0301"}}}
+						case 2: // three rows (two line breaks)
+							rows = []stl.Row{{{Text: line[:36] + "1"}}, {{Text: line[:36] + "2"}}, {{Text: line[:n-77] + "3"}}}
+						case 3: // last run italic: the field ends with the off code (or with the text under NoFinalOff)
+							rows = []stl.Row{{{Text: line[:40] + "1"}}, {{Text: line[:n-46] + "2", Style: stl.Style{I: true}}}}
+						case 4:
+							rows = []stl.Row{{{Text: line[:40] + "1"}}, {{Text: line[:n-46] + "2", Style: stl.Style{I: true}}}}
+							cs.Render.NoFinalOff = true
+						}
+						cs.Render.TrailingBreak = tb
+						cs.Doc.Blocks[0].Rows = rows
+						if b, err := stl.EncodeTextField(rows, isTeletext(dsc), cs.Render); err == nil && len(b) > maxField {
+							maxField = len(b)
+						}
+						r.exec("full-field", cs, 2, true, true, nil)
+						tick()
+					}
+				}
+			}
+		}
+	}
+	if maxField > 0 {
+		c.ExtraMax["longest_text_field_bytes"] = float64(maxField)
+	}
+
+	// (4d) teletext rows: every spacing control code 01h..1Fh that is not a box code x its place (after the start
+	// box, before it, after the text, between two runs) x box form x alpha colour present x plain / italic text
+	for _, dsc := range []string{"1", "2"} {
+		for code := 0x01; code <= 0x1F; code++ {
+			if code == 0x0A || code == 0x0B {
+				continue
+			}
+			for pos := 0; pos < 4; pos++ {
+				for _, box := range []int{0, 1, 6} {
+					for _, colour := range []int{0, 3} {
+						for _, st := range []stl.Style{{}, {I: true}} {
+							if stop || !c.Mine() {
+								continue
+							}
+							cs := baseCase(25, dsc)
+							cs.Doc.Blocks[0].Rows = []stl.Row{{{Text: "ab", Style: st}, {Text: "ef", Style: stl.Style{U: true}}}, {{Text: "cd"}}}
+							cs.Render.Ctl, cs.Render.CtlPos, cs.Render.Box, cs.Render.Colour = code, pos, box, colour
+							r.exec("teletext-ctl", cs, 3, true, false, nil)
+							tick()
+						}
+					}
+				}
+			}
+		}
+	}
+
+	// (4e) two blocks of one subtitle number: every pair of extension block numbers {FF, 00, 01, EF} x comment
+	// flags (one cue per non-user-data block, whatever its EBN and comment flag)
+	for _, dsc := range []string{"0", "1"} {
+		for _, e1 := range []int{0xFF, 0x00, 0x01, 0xEF, 0xFE} {
+			for _, e2 := range []int{0xFF, 0x00, 0x01, 0xEF, 0xFE} {
+				for cf := 0; cf < 4; cf++ {
+					if stop || !c.Mine() {
+						continue
+					}
+					cs := baseCase(25, dsc)
+					b1 := cs.Doc.Blocks[0]
+					b2 := b1
+					b2.Rows = []stl.Row{{{Text: "y"}}}
+					b2.In, b2.Out = b1.Out, stl.TC{S: 3}
+					for i, e := range []int{e1, e2} {
+						b := []*stl.Block{&b1, &b2}[i]
+						switch e {
+						case 0xFF:
+						case 0xFE:
+							*b = stl.Block{UserData: true, SN: b.SN}
+						default:
+							b.HasEBN, b.EBN = true, e
+						}
+					}
+					if !b1.UserData {
+						b1.CF = cf & 1
+					}
+					if !b2.UserData {
+						b2.CF = cf >> 1
+					}
+					cs.Doc.Blocks = []stl.Block{b1, b2}
+					r.exec("ebn-pairs", cs, 2, true, false, nil)
+					tick()
+				}
 			}
 		}
 	}
@@ -1513,16 +1882,20 @@ func replay(sub string, raw json.RawMessage) (string, bool) {
 func init() {
 	core.Register(&core.Prop{
 		ID: "C05", Level: "exploration",
-		Rule: "a case = (ground-truth EBU STL model: GSI field values, DFC 25/30, DSC 0/1/2, TCP, TTI blocks incl. user-data blocks, timecodes, VP, JC, rows of styled runs over the Latin table; rendering choices: box form, colour code, style-code form, blanks, trailing break; option ignore-TCP; write options: metadata kind, instant rounding, attribute form, NFC/NFD). Enumerated by the E1 explorer (three full products of small grammars + every case within B deviations of the baseline over all choice points) and by plain nested loops: every timecode of the stated h,m,s sets x ALL frame numbers, TCP x TCI over all frame pairs, every assigned code of the Latin table, every diacritic x base character, diacritic pairs across rows/cues, every string of style codes (<=3 before, <=2|3 inside the text), every millisecond of a second on the write side. Read: ReadFromSTL(ref.Encode(model)) must denote the model (metadata fields, one cue per non-user-data block, instants exact to <1 ns, VP, JC, rows of styled characters up to canonical equivalence), then WriteToSTL of the result must keep every TCI/TCO and re-read to the same instants. Write: WriteToSTL(model) must be 1024+128n bytes and denote the model's cues (instant within one frame) and metadata to ref.Decode and to ReadFromSTL; read-write again keeps every timecode. non-trivial = non-baseline case, distinct by its serialised form",
+		Rule: "a case = (ground-truth EBU STL model: GSI field values, DFC 25/30, DSC 0/1/2, TCP, TTI blocks incl. user-data blocks, timecodes, VP, JC, rows of styled runs over the Latin table; rendering choices: box form (double/single/open box codes), colour and other spacing control codes and their place, style-code form, blanks at row edges, leading/empty/trailing rows, attributes left on at the end of the field; option ignore-TCP; write options: metadata kind, instant rounding, attribute form, NFC/NFD, cue attributes given/partly given/absent). Every field ranges over a boundary-complete value table: CPN {437,850,860,863,865}; DSC {0,1,2,blank}; LC {the 5 named codes, 0A, 00, 7F, blank}; the ten free-text fields {typical, empty, exactly full, one character, one short of full, inner double blank + punctuation}; CD/RD {8 dates: century digits, 29 Feb, 68/69/70}; RN {0,1,9,10,99}; TNG {1,2,9,10,255}; MNC {0,1,9,10,38,40,99}; MNR {0,1,9,10,11,23,24,99}; TCS {0,1}; TCP {0, 1 frame, 1 s, 1 min, 1 h, 09:59:59:last, 10 h, 23:59:59:last}; TND/DSN {1,9}; CO {FRA,NOR,CHN,US,blank}; spare bytes {blank, filled}; UDA {empty, short, all 576 bytes used with every byte value}; SGN {0,1,255}; SN base {0,1}; EBN {FF,00,01,EF,FE}; CS 0..3; comment flag {0,1}. Enumerated by the E1 explorer (three full products of small grammars + twelve full products over the value tables of neighbouring GSI / TTI fields, row layouts and cue-attribute forms + every case within B deviations of the baseline over all choice points and all value tables) and by plain nested loops: {0,9,10,max}^4 timecodes as TCP = TCI (digit boundaries of the textual GSI timecodes), text fields of 96..112 bytes (exactly full, last byte letter / accented letter / off code / end box / line break), every teletext control code 01h..1Fh x 4 places x box form, every pair of EBN x comment flag on two blocks of one subtitle number, every timecode of the stated h,m,s sets x ALL frame numbers, TCP x TCI over all frame pairs, every assigned code of the Latin table, every diacritic x base character, diacritic pairs across rows/cues, every string of style codes (<=3 before, <=2|3 inside the text), every millisecond of a second on the write side. Read: ReadFromSTL(ref.Encode(model)) must denote the model (metadata fields, one cue per non-user-data block, instants exact to <1 ns, VP, JC, rows of styled characters up to canonical equivalence), then WriteToSTL of the result must keep every TCI/TCO and re-read to the same instants. Write: WriteToSTL(model) must be 1024+128n bytes and denote the model's cues (instant within one frame) and metadata to ref.Decode and to ReadFromSTL, with GSI totals = number of blocks and TCF = first TCI; read-write again keeps every timecode. non-trivial = non-baseline case, distinct by its serialised form",
 		Scope: map[core.Tier]string{
-			core.Quick:    "core product (fps x DSC x TCP x ignore x user-data placement x <=2 rows x <=2 runs x 3 styles x box/style-code forms), block-pattern product (<=3 cues, user-data blocks before each and after), write-option product, deviation ball B=2 over ~150 choice points (<=3 cues, <=3 rows, <=3 runs, 8 styles, 19 text atoms); files of 255/256/257/300/511/513 cues (subtitle-number byte boundary, GSI totals); timecodes {0,1,23}h x {0,1,30,59}m x 0..59 s x all frames at 25 and 30 fps; 13 diacritics x 63 bases; style-code strings <=3 / <=2; every valid VP x JC; every ms of a second (write)",
+			core.Quick:    "core product (fps x DSC x TCP x ignore x user-data placement x <=2 rows x <=2 runs x 3 styles x box/style-code forms), block-pattern product (<=3 cues, user-data blocks before each and after), write-option product, value products gsi-id (CPN x DFC x DSC x LC), gsi-titles/-names/-refs (three neighbouring text fields x 6 values each), gsi-dates (SLR x CD x RD x RN), gsi-nums (0/1/2 cues x TNG x MNC x MNR x TCS x DSC), gsi-tc (8 TCP x ignore x fps x DSC x 3 TCI x TND x DSN x CO), gsi-tail (PUB x EN x ECD x spare x UDA), tti-hdr (SGN x SN base x EBN x CS x CF x user-data placement x DSC), rows-open / rows-teletext (<=3 rows x <=2 runs x leading/empty/trailing row x indent x trailing blanks x filler x attributes left on x box form), w-item (cue attributes x VP x JC x DSC x metadata kind); deviation ball B=2 over ~200 choice points (<=3 cues, <=3 rows, <=3 runs, 8 styles, 19 text atoms, all value tables); {0,9,10,max}^4 timecodes as TCP=TCI x ignore; text fields of 96..112 bytes; control codes 01h..1Fh x 4 places x 3 box forms; EBN pairs x comment flags; files of 255/256/257/300/511/513 cues (subtitle-number byte boundary, GSI totals); timecodes {0,1,23}h x {0,1,30,59}m x 0..59 s x all frames at 25 and 30 fps; 13 diacritics x 63 bases; style-code strings <=3 / <=2; every valid VP x JC; every ms of a second (write)",
 			core.Thorough: "as quick with deviation ball B=3, files of 1000/9999/10001/65535 cues, every timecode of the day (24 x 60 x 60 x all frames, both rates), style-code strings <=3 / <=3",
 		},
 		Assumptions: []string{"Go toolchain and standard library; golang.org/x/text/unicode/norm for canonical equivalence of the compared text",
 			"independent reference codec engine/ref/stl (Latin table as in EBU Tech 3264 Appendix 2 / ISO 6937-2: 24h = currency sign, A4h = dollar; A6h/A8h accepted by the decoder as number/currency sign, never generated)",
 			"blanks next to a control code, and the segmentation into runs of equal attributes, are outside the denotation (teletext control codes are spacing; the reader trims each run, the writer separates runs with a blank)",
 			"attributes are switched off before every line break by the encoder: whether they survive a line break is not pinned",
-			"GSI text fields are ASCII without leading blanks; language codes are the five the library names; one TTI block per subtitle (no extension blocks), comment flag 0"},
+			"GSI text fields are ASCII without leading blanks (the library copies GSI bytes verbatim, it has no notion of the GSI code page: non-ASCII GSI text is left out); a language code the library has no name for denotes no language (read) and is the writer's choice (write); lower-case hex language codes, blank dates and TCI before TCP are left out as not well-formed",
+			"one cue per non-user-data TTI block as the property states: blocks with EBN 00h..EFh and comment blocks are cues, each with a text field that is complete in itself",
+			"display standard blank (undefined): everything but the text is compared on reading; such a model is only written as display standard 0",
+			"two-digit years are compared as two digits (the century pivot is not pinned by the format)",
+			"teletext control codes other than box codes sit at row edges or between two runs, never inside a word, and never between a diacritic and its letter; unassigned codes of the Latin table, a diacritic without a following letter and two diacritics in a row are left out as not well-formed"},
 		Plain: run, Replay: replay, MinOutcomes: 10,
 	})
 }
